@@ -31,7 +31,7 @@ CONSTANTS CpuFloorUs,    \* CPU time every call may use regardless of the input
 \* outcome classes of a call that came back properly
 Returned == {"ok", "malformed", "readError", "auth", "error"}
 \* outcome classes the property excludes
-Excluded == {"panic", "fatal", "hang"}
+Excluded == {"panic", "fatal", "hang", "noresult"}   \* noresult: neither a value nor an error
 
 \* documented budgets (internal/limits/limits.go), in KiB
 StreamBudgetBaseKiB == 8 * 1024
@@ -55,7 +55,7 @@ CallOK(c) == OutcomeOK(c) /\ CpuOK(c) /\ AllocOK(c) /\ GoroutinesOK(c) /\ Produc
 \* which clause a record breaks (for the report)
 Clause(c) == IF ~OutcomeOK(c) THEN "outcome"
              ELSE IF ~GoroutinesOK(c) \/ ~ProducerOK(c) THEN "goroutines"
+             ELSE IF ~AllocOK(c) THEN "alloc"      \* (before "cpu": allocation does not depend on the machine's load)
              ELSE IF ~CpuOK(c) THEN "cpu"
-             ELSE IF ~AllocOK(c) THEN "alloc"
              ELSE "none"
 =============================================================================
